@@ -8,6 +8,7 @@ use std::collections::BTreeMap;
 use std::fmt::Write as _;
 
 #[derive(Clone, Debug, PartialEq)]
+#[allow(dead_code)]
 pub enum Ty {
     Unit,
     Bool,
